@@ -1081,6 +1081,15 @@ func c02(run *ev.Run, tier string) {
 					run.Violate("C02/archlinux/version/epoch-with-leading-zero", map[string]any{"epoch": ep, "pkgver": got, "want_prefix": fmt.Sprintf("%d:", n)})
 				}
 			}
+			s = base()
+			s.Epoch = ep
+			if p := buildDecode(s, "rpm", "epoch "+ep); p != nil {
+				run.Case("rpm-epoch-with-leading-zero|"+ep, true)
+				atomic.AddInt64(&cmps, 1)
+				if got := p.Rpm.Hdr.IntList(dec.RpmTagEpoch); len(got) != 1 || got[0] != int64(n) {
+					run.Violate("C02/rpm/epoch-with-leading-zero", map[string]any{"epoch": ep, "header_epoch": got, "want": n})
+				}
+			}
 		}
 	}
 	// part 1f: values with a shape of their own: a folded multi-line custom deb
